@@ -35,6 +35,8 @@ fn stmt_text(st: &J) -> String {
         "outref" => format!("output {} = #{}", n, st["x"].as_str().unwrap()),
         "outlit" => format!("output {} = {}", n, st["x"]),
         "refs" => format!("output {} = [#a, inputs.a, #zz, inputs.zz]", n),
+        "refsdo" => format!("output {} = do {{\n  inputs = {{a: 9}}\n  return [#a, inputs.a, #zz]\n}}", n),
+        "refsfn" => format!("output {} = (inputs => [#a, inputs.a, #zz])({{a: 9}})", n),
         "bind" => format!("{} = {}", n, st["x"]),
         "out" => format!("output {}", n),
         "evalerr" => "w0 = nosuch".to_string(),
